@@ -112,7 +112,9 @@ SELECTORS = ['a', '.b', 'a:hover', 'a::before', '@media (min-width: 10px)', 'a[t
 NAMES = ['color', 'margin', '$v', '--x', 'background', 'a-b', '@var', 'content', 'font-family', '-webkit-x', '*zoom']
 TOKENS = ['red', '10px', '20px', 'url("a;b{}")', "'x:y'", 'calc(1px + (2px * 3))', '#fff', 'rgba(0, 0, 0, .5)', 'solid', '"}"', "'\\''", 'url(a.png)', '1.5em', '-1px', '!important', 'var(--x, 1px)',
           'no-repeat', '"a\\"b"', 'fn(a;b)', '100%', 'fn(b:c)', 'url(data:image/png;base64,AA==)', 'map-get((k: v), k)', 'f( ; : )',
-          '"it\'s"', "'\"}'", "'say \"hi;\"'", '"a\'b{c\'d"']
+          '"it\'s"', "'\"}'", "'say \"hi;\"'", '"a\'b{c\'d"',
+          # unquoted `//` (protocol-relative and absolute URLs): no comment syntax of the scanned languages inside a value
+          'url(//cdn.z/i.png)', 'url(http://x.y/z.png)']
 WS = ['', ' ', '\n', '\n  ', ' /* c; } { */ ', '\t', '/* a:b */', '\n\n', ' /**/ ', '/* x **/', '/***/', '/** { **/ ', '/* * / */']
 
 
